@@ -37,16 +37,26 @@ class WindowTellEndOpcode(Opcode):
         fn_statements.reverse()
         
         for st in fn_statements:
-            if not isinstance(st.code, WindowTellOperation):
+            if (not isinstance(st.code, WindowTellOperation)
+                or cast(WindowTellOperation, st.code).closed):
+                # An inner tell block that has already ended is a statement
+                # of the block that ends now
                 statements.append(st)
             else:
                 op: WindowTellOperation = cast(WindowTellOperation, st.code)
                 statements.reverse()
                 op.statements.extend(statements)
+                op.closed = True
                 statements = op.statements
                 break
                 
         for st in statements:
             fn.statements.remove(st)
         
+        # Back in the enclosing tell block, if there is one
         context.tell_object = None
+        for st in fn.statements:
+            if (isinstance(st.code, WindowTellOperation)
+                and not cast(WindowTellOperation, st.code).closed):
+                context.tell_object = cast(WindowTellOperation,
+                                           st.code).operand
